@@ -238,8 +238,10 @@ def worker_ops(rng, L, nworkers):
         r = rng.random()
         if r < .5:
             ops.append(('list',))
-        elif r < .65:
+        elif r < .58:
             ops.append(('partial', rng.randint(0, len(L) + 1)))
+        elif r < .65:
+            ops.append(('partial-hold', rng.randint(0, len(L) + 1)))
         elif r < .75:
             ops.append(('count',))
         elif r < .85:
@@ -251,12 +253,22 @@ def worker_ops(rng, L, nworkers):
     return ops
 
 
+HELD = []
+
+
 def op_callable(obj, op, L):
     k = op[0]
     if k == 'list':
         return lambda: list(obj)
     if k == 'partial':
         return lambda: list(itertools.islice(iter(obj), op[1]))
+    if k == 'partial-hold':
+        # takes op[1] items and keeps the suspended iterator alive until the scenario is over
+        def g():
+            it = iter(obj)
+            HELD.append(it)
+            return list(itertools.islice(it, op[1]))
+        return g
     if k == 'count':
         return obj.count
     if k == 'index':
@@ -279,7 +291,7 @@ def op_expected(op, L):
     k = op[0]
     if k == 'list':
         return ('ok', L)
-    if k == 'partial':
+    if k in ('partial', 'partial-hold'):
         return ('ok', L[:op[1]])
     if k == 'count':
         return ('ok', len(L))
@@ -302,10 +314,14 @@ def scheduled_run(ctx, R, codes, kind, n, ops, policy, label, sigs):
     lock = S.ProxyLock(s, '_cache_lock')
     obj._cache_lock = lock
     s.install()
+    del HELD[:]
     try:
         results, completed = s.run([op_callable(obj, op, L) for op in ops])
     finally:
         s.uninstall()
+    held_lock = lock.locked() and not s.deadlock and completed and not s.aborted
+    suspended = len(HELD)
+    del HELD[:]
     ctx.ev()
     case = {'scenario': 'scheduled', 'kind': kind, 'n': n, 'ops': [list(o) for o in ops], 'policy': label,
             'schedule': [(a, b, str(c), d) for a, b, c, d in s.trace][:400]}
@@ -325,6 +341,14 @@ def scheduled_run(ctx, R, codes, kind, n, ops, policy, label, sigs):
         return
     if s.deadlock:
         ctx.violation('deadlock', case, 'no runnable task: %r; lock events tail %r' % (s.deadlock, lock.events[-6:]))
+        return
+    if suspended:
+        ctx.count('runs_with_suspended_iterators')
+    if held_lock:
+        # every task has finished; an iterator that is merely suspended between two next() calls must not own the lock
+        # (any other consumer reaching the end of the cache would block until that iterator is driven on or dropped)
+        ctx.violation('lock-held-at-quiescence', case, 'all tasks finished, %d iterator(s) suspended, cache lock still owned; lock events tail %r' % (
+            suspended, lock.events[-6:]))
         return
     for i, op in enumerate(ops):
         got = results.get('T%d' % i)
@@ -421,7 +445,8 @@ def run(ctx):
     rounds = 0
     # systematic: every single preemption (and, thorough, every pair) on short scenarios
     for kind, n, ops in (('rule', 11, [('list',), ('list',)]), ('rule', 10, [('list',), ('count',)]), ('set', 2, [('list',), ('list',)]),
-                         ('rule', 1, [('list',), ('list',), ('list',)]), ('rule', 20, [('partial', 11), ('list',)])):
+                         ('rule', 1, [('list',), ('list',), ('list',)]), ('rule', 20, [('partial', 11), ('list',)]),
+                         ('rule', 11, [('two-iterators',), ('list',)]), ('rule', 11, [('partial-hold', 11), ('list',)])):
         if (hash_list([kind, n, ops]) and (LENGTHS.index(n) if n in LENGTHS else 0)) % ctx.nshards != ctx.shard and ctx.nshards > 1:
             pass
         K = count_steps(R, codes, kind, n, ops)
@@ -472,7 +497,7 @@ def run(ctx):
 def floors(agg, tier):
     c, out = agg['counters'], []
     for k, n in (('single_sweep_runs', 800 if tier == 'quick' else 1500), ('single_random_runs', 400), ('scheduled_runs', 800 if tier == 'quick' else 20000),
-                 ('systematic_runs', 300), ('runs_with_lock_contention', 50), ('free_running_rounds', 60), ('guard_acquires', 1000),
+                 ('systematic_runs', 300), ('runs_with_lock_contention', 50), ('runs_with_suspended_iterators', 40), ('free_running_rounds', 60), ('guard_acquires', 1000),
                  ('distinct_interleavings', 500 if tier == 'quick' else 10000)):
         if c.get(k, 0) < n:
             out.append('%s only %d (< %d)' % (k, c.get(k, 0), n))
